@@ -52,11 +52,12 @@ def package_src(cases):
            'var _ = json.RawMessage{}\nvar _ = time.Time{}\nvar _ strfmt.Date\n',
            '// MyInt is a named integer.\ntype MyInt int64\n\n// MyStr is a named string.\ntype MyStr string\n\n// AliasF is an alias.\ntype AliasF = float64\n',
            '// Inner is referenced by other models.\n//\n// swagger:model Inner\ntype Inner struct {\n\tA int `json:"a"`\n\tB *string `json:"b,omitempty"`\n}\n',
-           '// EmbBase is embedded.\ntype EmbBase struct {\n\tBase int `json:"base"`\n\tOpt *string `json:"opt,omitempty"`\n}\n']
+           '// EmbBase is embedded.\ntype EmbBase struct {\n\tBase int `json:"base"`\n\tOpt *string `json:"opt,omitempty"`\n}\n',
+           '// embHidden is an embedded struct whose type is not exported: encoding/json still promotes its exported fields.\ntype embHidden struct {\n\tRevision int `json:"revision"`\n\tEditor string `json:"editor"`\n}\n']
     reg = []
     for i, c in enumerate(cases):
         n = "Model%d" % i
-        emb = {"struct": "", "embedded": "\tEmbBase\n", "embedded_ptr": "\t*EmbBase\n"}[c["shape"]]
+        emb = {"struct": "", "embedded": "\tEmbBase\n", "embedded_ptr": "\t*EmbBase\n", "embedded_unexported": "\tembHidden\n"}[c["shape"]]
         out.append("// %s is case %d.\n//\n// swagger:model %s\ntype %s struct {\n%s%s\tKeep string `json:\"keep\"`\n}\n" % (n, i, n, n, emb, field_src(c["f"])))
         reg.append('\t"%s": %s{},\n' % (n, n))
     out.append("// Registry of the annotated models.\nvar Registry = map[string]any{\n" + "".join(reg) + "}\n")
@@ -88,6 +89,10 @@ def check_c16(run):
     defs = {e["def"]: e["schema"] for e in sc[1:]}
     events = [dict(ev="Scan", ok=sc[0]["ok"], panicked=sc[0]["panicked"], err=sc[0]["err"], defs=defs)]
     enc = [json.loads(l) for l in run.sh([run.path("bin", "typesdrv")], timeout=600).stdout.splitlines() if l.strip()]
+    for e in enc:
+        # keys the scanner is told to leave out although encoding/json writes them (swagger:ignore)
+        i = int(e["model"][5:])
+        e["ignored"] = ["f"] if cases[i]["f"]["tag"] == "ignore" else []
     events += enc
     # phase 2: instances of the scanned definitions, generated by TLC from what the scanner returned
     models = ["Model%d" % i for i in range(len(cases)) if "Model%d" % i in defs]
@@ -131,7 +136,7 @@ def check_c16(run):
             run.violations.append(dict(signature=e["why"], detail=dict(err=ev["err"]))); continue
         i = int(ev["model"][5:]); c = cases[i]
         rv = ref.get(idx.get(id(ev)))
-        if ev["ev"] == "Encoded" and rv is True:       # the reference validator accepts what JsonSchema!Valid rejects
+        if ev["ev"] == "Encoded" and rv is True and e["why"].startswith("the JSON produced"):       # the reference validator accepts what JsonSchema!Valid rejects
             skipped += 1; continue
         if ev["ev"] == "Decoded" and rv is False:      # the reference validator rejects the instance TLC generated
             skipped += 1; continue
@@ -300,9 +305,9 @@ package PKG
 
 def kw(name, spell):
     long = {"minimum": "Minimum", "maximum": "Maximum", "minLength": "Minimum length", "maxLength": "Maximum length",
-            "minItems": "Minimum items", "required": "Required", "in": "In", "collectionFormat": "Collection format", "itemsMinLength": "Items.Minimum length"}
+            "minItems": "Minimum items", "required": "Required", "in": "In", "collectionFormat": "Collection format", "itemsMinLength": "Items.Minimum length", "itemsMinimum": "Items.Minimum", "itemsMaximum": "Items.Maximum"}
     short = {"minimum": "min", "maximum": "max", "minLength": "min length", "maxLength": "max length",
-             "minItems": "min items", "required": "required", "in": "in", "collectionFormat": "collection format", "itemsMinLength": "items.min length"}
+             "minItems": "min items", "required": "required", "in": "in", "collectionFormat": "collection format", "itemsMinLength": "items.min length", "itemsMinimum": "items.min", "itemsMaximum": "items.max"}
     return (long if spell == "long" else short)[name]
 
 
@@ -315,6 +320,8 @@ def param_fields(kinds, spell):
         out.append("\t// the limit\n\t//\n\t// %s: query\n\t// %s: 1\n\t// %s: 100\n\tLimit int32 `json:\"limit\"`\n" % (K("in"), K("minimum"), K("maximum")))
     if "q_strings_items" in kinds:
         out.append("\t// %s: query\n\t// %s: pipes\n\t// %s: 1\n\t// %s: 2\n\tTags []string `json:\"tags\"`\n" % (K("in"), K("collectionFormat"), K("minItems"), K("itemsMinLength")))
+    if "q_ptr_items" in kinds:
+        out.append("\t// %s: query\n\t// %s: 3\n\t// %s: 9\n\tCounts []*int64 `json:\"counts\"`\n" % (K("in"), K("itemsMinimum"), K("itemsMaximum")))
     if "path_int" in kinds:
         out.append("\t// the id\n\t// %s: path\n\t// %s: true\n\tID int64 `json:\"id\"`\n" % (K("in"), K("required")))
     if "header_str_len" in kinds:
